@@ -6,7 +6,7 @@
   * `logTail_spec` : with `R = val res ≤ 1/10`, `K = |e0|`:
         `neg = (e0 < 0)`,  `|val x − |B|| ≤ lam·(4·(K·ln10v + 2R) + lnM M)`,
         `B = 2R + K·ln10v + lnM M` (`e0 ≥ 0`) resp. `K·ln10v − 2R − lnM M` (`e0 < 0`), flag in `flag3`,
-        exponent of the result within ±5500.
+        exponent of the result in [-5930, 5500].
 -/
 import D128.Proofs.LogAccSeries
 import D128.Proofs.Encoding
@@ -122,13 +122,13 @@ theorem neg_chain (lam R2 Lk mL a b s x : ℚ) (hl0 : 0 < lam) (hl1 : lam < 1 / 
 /-- **The end of `log`.** -/
 theorem logTail_spec (e0 : Int16) (M : Int64) (res : decomposed192) (t : Int8) (ht : flag3 t)
     (he : -16100 ≤ e0.toInt ∧ e0.toInt ≤ 16100) (hM0 : 10 ≤ M.toInt) (hM1 : M.toInt ≤ 99)
-    (hR : val res ≤ 1 / 10) (hre0 : -5400 ≤ res.exp.toInt) (hre1 : res.exp.toInt ≤ 5400) :
+    (hR : val res ≤ 1 / 10) (hre0 : -5930 ≤ res.exp.toInt) (hre1 : res.exp.toInt ≤ 5400) :
     ∃ (neg : Bool) (x : decomposed192) (t' : Int8),
       logTail e0 M res t = .ok (neg, x, t') ∧ flag3 t' ∧ neg = decide (e0.toInt < 0) ∧
       |val x - (|if e0.toInt < 0 then (e0.toInt.natAbs : ℚ) * ln10v - 2 * val res - lnM M
                  else 2 * val res + (e0.toInt.natAbs : ℚ) * ln10v + lnM M|)|
         ≤ lam * (4 * ((e0.toInt.natAbs : ℚ) * ln10v + 2 * val res) + lnM M) ∧
-      -5500 ≤ x.exp.toInt ∧ x.exp.toInt ≤ 5500 := by
+      -5930 ≤ x.exp.toInt ∧ x.exp.toInt ≤ 5500 := by
   have hl := lam_pos
   have hl1 : lam < 1 / 100 := lt_of_le_of_lt lam_le (by norm_num)
   have hR0 : 0 ≤ val res := val_nonneg _
